@@ -21,4 +21,5 @@ import (
 	_ "verif/checks/c17"
 	_ "verif/checks/c18"
 	_ "verif/checks/c19"
+	_ "verif/checks/c20"
 )
